@@ -205,7 +205,8 @@ pub struct Executor<E: Effect> {
     // answers are in, the select must not look at its sources: a message arriving (or a local
     // completion) in that window would otherwise let a lower-priority source win over an awaited
     // process that had finished before the select began.
-    awaiting_initial: HashSet<ProcessId>,
+    // Maps such a process to the await targets that have not been reported on yet.
+    awaiting_initial: HashMap<ProcessId, HashSet<ProcessId>>,
     // Program data owned by executor
     constants: Vec<Constant>,
     functions: Vec<Function>,
@@ -609,7 +610,7 @@ impl<E: Effect> Executor<E> {
             spawning: HashSet::new(),
             selecting: HashSet::new(),
             effecting: HashSet::new(),
-            awaiting_initial: HashSet::new(),
+            awaiting_initial: HashMap::new(),
             constants: vec![],
             functions: vec![],
             builtins: vec![],
@@ -790,40 +791,25 @@ impl<E: Effect> Executor<E> {
         }
 
         // Re-queue awaiter to retry its Select instruction (once its initial answers are in)
-        if !self.awaiting_initial.contains(&awaiter) && self.selecting.remove(&awaiter) {
+        if !self.awaiting_initial.contains_key(&awaiter) && self.selecting.remove(&awaiter) {
             self.queue.push_back(awaiter);
         }
 
         Ok(())
     }
 
-    /// The initial answers to a select's await query have arrived: from now on the select may be
-    /// woken by messages and completions again. Returns whether the process was waiting for them.
-    ///
-    /// `answered` are the processes the answer reports on. An answer can be stale — left over from
-    /// an earlier select of the same process that has already completed through a same-worker
-    /// notification — so it only counts if it covers all of the current select's await targets (it
-    /// may cover more: the environment folds a late completion from an earlier await into it).
+    /// An answer to a select's await query has arrived, reporting on `answered`. Once every await
+    /// target of the select has been reported on, the select may be woken by messages and
+    /// completions again. (The answer can arrive in pieces, and a piece can also report on
+    /// processes of an earlier await.) Returns whether the initial answers are now complete.
     pub fn initial_await_answered(&mut self, id: ProcessId, answered: &[ProcessId]) -> bool {
-        if !self.awaiting_initial.contains(&id) {
+        let Some(outstanding) = self.awaiting_initial.get_mut(&id) else {
             return false;
+        };
+        for target in answered {
+            outstanding.remove(target);
         }
-        let targets: HashSet<ProcessId> = self
-            .get_process(id)
-            .and_then(|p| p.select_state.as_ref())
-            .map(|state| {
-                state
-                    .sources
-                    .iter()
-                    .filter_map(|source| match source {
-                        Value::Process(target, _) => Some(*target),
-                        _ => None,
-                    })
-                    .collect()
-            })
-            .unwrap_or_default();
-        let answered: HashSet<ProcessId> = answered.iter().copied().collect();
-        if targets.is_subset(&answered) {
+        if outstanding.is_empty() {
             self.awaiting_initial.remove(&id);
             true
         } else {
@@ -901,7 +887,7 @@ impl<E: Effect> Executor<E> {
 
         // Re-queue if the process is selecting (waiting for messages) — unless it is still waiting
         // for the initial answers of its await query; it will see the message when they arrive.
-        if !self.awaiting_initial.contains(&id) && self.selecting.remove(&id) {
+        if !self.awaiting_initial.contains_key(&id) && self.selecting.remove(&id) {
             self.queue.push_back(id);
         }
 
@@ -930,7 +916,7 @@ impl<E: Effect> Executor<E> {
         // have parked in `spawning`, waiting for its NotifySpawn with its Spawn instruction still
         // current. Re-queueing it here would execute that Spawn a second time on a stack whose
         // operands are already consumed.
-        if !self.awaiting_initial.contains(&id) && self.selecting.remove(&id) {
+        if !self.awaiting_initial.contains_key(&id) && self.selecting.remove(&id) {
             self.queue.push_back(id);
         }
     }
@@ -2287,7 +2273,8 @@ impl<E: Effect> Executor<E> {
                 self.release(old);
             }
 
-            self.awaiting_initial.insert(pid);
+            self.awaiting_initial
+                .insert(pid, pid_targets.iter().copied().collect());
             self.mark_selecting(pid);
             return Ok(Some(Action::Await {
                 targets: pid_targets,
